@@ -90,7 +90,7 @@ static int gen_vcls(Tape& t, bool need_exact) { return need_exact ? t.pick({2, 1
 template<typename DT, typename IT> static void csr_case(Tape& t, Ctx& c)
 {
   static const FileMode modes[] = {FileMode::fm_mtx, FileMode::fm_csr, FileMode::fm_binary};
-  int mi = t.range(0, 3); bool ser = (mi == 3); int sty = t.range(0, 2);
+  int mi = t.range(0, 3); bool ser = (mi == 3); int sty = t.range(0, 3);
   int vcls = gen_vcls(t, ser);
   Pat p = gen_pattern(t, 14, vcls);
   bool ef = p.nnz() == 0;
@@ -102,7 +102,7 @@ template<typename DT, typename IT> static void csr_case(Tape& t, Ctx& c)
   auto A = make_csr<DT, IT>(p);
   auto fl = [](const SparseMatrixCSR<DT, IT>& a, std::vector<long double>& v, std::string& l) { flat_csr(a, v, l); };
   if(!ser) roundtrip(c, A, modes[mi], fl, 6e-7);
-  else switch(sty) { case 0: roundtrip_serialize<SparseMatrixCSR<DT, IT>, double, std::uint64_t>(A, fl, "double,u64"); break; case 1: roundtrip_serialize<SparseMatrixCSR<DT, IT>, float, std::uint32_t>(A, fl, "float,u32"); break; default: roundtrip_serialize<SparseMatrixCSR<DT, IT>, double, std::uint32_t>(A, fl, "double,u32"); }
+  else switch(sty) { case 0: roundtrip_serialize<SparseMatrixCSR<DT, IT>, double, std::uint64_t>(A, fl, "double,u64"); break; case 1: roundtrip_serialize<SparseMatrixCSR<DT, IT>, float, std::uint32_t>(A, fl, "float,u32"); break; case 2: roundtrip_serialize<SparseMatrixCSR<DT, IT>, double, std::uint32_t>(A, fl, "double,u32"); break; default: roundtrip_serialize<SparseMatrixCSR<DT, IT>, float, std::uint64_t>(A, fl, "float,u64"); }
 }
 
 static void matrix_case(Tape& t, Ctx& c)
